@@ -18,7 +18,7 @@ VARIABLE H      \* [M : abstract manager, cur : root -> content of the manager's
                 \*  pops : undo/redo calls that changed the document, v / d : C12 violations / drift found by conjoined parts]
 xvars == <<vars, H>>
 
-EmptyView == [t |-> "\"\"", a |-> "[]", m |-> "{}"]
+EmptyView == [t |-> "\"\"", a |-> "[]", m |-> "{}", x |-> "X[]"]
 H0(keep) == [M |-> EmptyMgr, cur |-> EmptyView, trk |-> {}, pops |-> 0, v |-> keep.v, d |-> keep.d]
 
 OriginOf(call) == IF "o" \in DOMAIN call THEN call.o ELSE ""
